@@ -885,6 +885,16 @@ class VirtualCluster:
                 nodes = [c for c in runs if c[1].stack[0].kind == "node"] + [c for c in ch if c[0].startswith("finish:")]
                 if nodes and self.rng.random() < 0.8:
                     return self.rng.choice(nodes)
+        if s == "collect_gap":
+            # between a login-side round's result collection and its next step, let the nodes run on
+            for ev in reversed(self.trace[-40:]):
+                if ev.get("k") in ("squeue", "marker_touch", "round_end") and "node" not in ev:
+                    break
+                if ev.get("k") == "collect" and "node" not in ev:
+                    nodes = [c for c in runs if c[1].stack[0].kind == "node"] + [c for c in ch if c[0].startswith("finish:")]
+                    if nodes and self.rng.random() < 0.9:
+                        return self.rng.choice(nodes)
+                    break
         if s == "slow_finish":
             other = [c for c in ch if not c[0].startswith("finish:")]
             if other and self.rng.random() < 0.85:
